@@ -643,7 +643,8 @@ def perturb_tier(rng, t):
         name = name + "x"
     elif c == "perturbed-label" and ents:
         i = rng.randrange(len(ents))
-        ents[i] = ents[i][:-1] + (ents[i][-1] + "q",)
+        # (a label is text: "132" and "132.0" are two labels, "nan" is the same label as "nan")
+        ents[i] = ents[i][:-1] + ({"132": "132.0", "7": "07", "1000": "1e3", "1e3": "1000", "nan": "NaN", "inf": "Infinity", "a": "A"}.get(ents[i][-1], ents[i][-1] + "q"),)
     elif c == "perturbed-time" and ents:
         i = rng.randrange(len(ents))
         j = rng.randrange(len(ents[i]) - 1)
@@ -722,7 +723,7 @@ def _workload(tier, rng, shard, nshards):
                 ents = [(e[0], e[2]) for e in ents]
             t = make_tier(kind, "q", ents, lo, hi)
         else:
-            kind, ents, lo, hi, t = rand_tier(rng, "q", 5.0, 6, 0.35, ["a", "b", "c", "ab", "Ab", "abc", ""], neg=0.06, ties=0.15)  # ("": an unlabelled stretch kept as an entry)
+            kind, ents, lo, hi, t = rand_tier(rng, "q", 5.0, 6, 0.35, ["a", "b", "c", "ab", "Ab", "abc", "", "132", "7", "1000", "nan", "inf", "1e3"], neg=0.06, ties=0.15)  # ("": an unlabelled stretch kept as an entry)
         for _q in range(3):
             call(t.find, rng.choice(queries), rng.random() < 0.4, rng.random() < 0.3)
         _ = t.timestamps
